@@ -2,6 +2,7 @@
 Obligations over the regenerated C06 tables (re-checked by `lake build` against what the code says now).
 -/
 import MenpoModel.Generated.C06AttrKinds
+import MenpoModel.Generated.C06Effects
 
 namespace MenpoModel.C06.GenProps
 open MenpoModel.C06
@@ -13,5 +14,12 @@ theorem attrKinds_ok : copyWF Generated.attrKinds Generated.copySupplier = true 
 /-- every class of the attribute table has a resolved `copy` that the model knows -/
 theorem copySupplier_ok :
     Generated.attrKinds.all (fun row => resOf Generated.copySupplier row.1 != .unknown) = true := by decide +kernel
+
+/-- every observed effect of every public mutator is an update of cells the receiver owns with freshly built
+content (or the mutator is one of the documented sharing ones), and what it stores in an attribute of an object
+has a runtime kind the attribute-kind table lists for that attribute: mutated objects stay inside the table -/
+theorem mutEffects_ok :
+    Generated.mutEffects.all (fun row => row.2.2.all
+      (effOK Generated.attrKinds Generated.sharingMutators row.1 row.2.1)) = true := by decide +kernel
 
 end MenpoModel.C06.GenProps
